@@ -513,10 +513,15 @@ for (n, what) in [
 ]:
     # every attach builds the complete management segment (~17 M variables for two attaches, 20 GB, ~19 min): the
     # quick tier runs the two cases that involve the most of the protocol, all slices run in the thorough tier
-    _q = n in ("c13_q_mismatch_buffer_same_role", "c13_q_race_detach_after_registration_mismatch")
+    _q = False  # vp check 3: the two-attach slices need > 900 s on an idle machine; quick is the single-attach slice below
     _c13.append(H("cal::conn::" + n, features=CAL, unwindset=_CONN_UW, covers=0, timeout=3600, mem_gb=21, concrete=True,
                   tiers=("quick", "thorough") if _q else ("thorough",),
                   what=what, bounds="unwind 6; one concrete case, 2-3 attach operations"))
+_c13.append(H("cal::conn::c13_q_second_sender_mismatch_refused", features=CAL, unwindset=_CONN_UW, covers=0, timeout=3000,
+              mem_gb=18, concrete=True, tiers=("quick",),
+              what="a second sender with a different buffer size is refused as already connected (not with a "
+                   "parameter error: the role check comes first) and nothing is destroyed; no teardown in this harness",
+              bounds="unwind 6; one concrete case, one attach + one refused attach"))
 for n in ["c13_t_mismatch_buffer_other_role", "c13_t_mismatch_overflow_other_role", "c13_t_mismatch_chunks_other_role",
           "c13_t_mismatch_segments_other_role", "c13_t_mismatch_channels_same_role",
           "c13_t_race_detach_before_registration_mismatch"]:
@@ -833,16 +838,18 @@ PROPS["C12"].update({
 })
 PROPS["C13"].update({
     "level_text": _BMC + ". Real zero_copy_connection::common Builder/Sender/Receiver over an in-memory DynamicStorage "
-                  "(KStorage).  Quick tier, two concrete cases: a second sender with a mismatching buffer size is refused "
-                  "as already connected without touching the attached sender's role (its detach then destroys the "
-                  "resource exactly once); the sender detaching right after a mismatching receiver registered makes the "
-                  "refused attacher the last one out, which destroys the resource exactly once.  Thorough tier adds the "
-                  "harnesses that were observed to finish: an attach racing the teardown before the port is registered "
-                  "(refused as being cleaned up) and forced removal of a dead peer with symbolic role / order.  Further "
-                  "slices (drop orders, second attach, single role + re-create, the other mismatching parameters) exist "
-                  "as tier 'extended' and are not claimed.",
-    "level_note": "one connection, buffer 1 / borrow 1 / 1 chunk / 1 channel; every attach costs ~10 M SAT variables, so "
-                  "the quick tier is two cases of ~19 min / 20 GB; the storage is a model of the DynamicStorage contract "
+                  "(KStorage).  Quick tier, one concrete case: with a sender attached, a second sender with a mismatching "
+                  "buffer size is refused as already connected (the role check precedes the parameter checks) and "
+                  "nothing is destroyed.  Thorough tier adds the two-attach cases that were observed to finish (17-19 "
+                  "min each): the same case followed by the attached sender's detach, which must destroy the resource "
+                  "exactly once (its role bit untouched); the sender detaching right after a mismatching receiver "
+                  "registered, which makes the refused attacher the last one out and must destroy the resource exactly "
+                  "once; an attach racing the teardown before the port is registered (refused as being cleaned up); "
+                  "forced removal of a dead peer with symbolic role / order.  Further slices (drop orders, second "
+                  "attach, single role + re-create, the other mismatching parameters) exist as tier 'extended' and are "
+                  "not claimed.",
+    "level_note": "one connection, buffer 1 / borrow 1 / 1 chunk / 1 channel; every attach costs ~10 M SAT variables: the "
+                  "quick tier is one case of ~10 min / 23 GB; the storage is a model of the DynamicStorage contract "
                   "(posix shared memory / files are outside); races are the two hook points of the storage model where "
                   "another process can act, not every atomic operation",
 })
@@ -885,6 +892,7 @@ c14_container
 c19_cross_domain_direct c19_cross_domain_direct_mixed_len c19_path_for_shape
 c12_s_reader_outer_deep c12_s_writer_outer_deep
 c05_ev_id_out_of_range
+c13_q_mismatch_buffer_same_role c13_q_race_detach_after_registration_mismatch
 """.split())
 for _p in PROPS:
     for _h in PROPS[_p]["harnesses"]:
